@@ -1078,6 +1078,28 @@ func (f *frame) backEdge(b *ssa.BasicBlock, k int, head *ssa.BasicBlock) {
 		}
 		x.addObligation("INV-STEP", f.dispName, fmt.Sprintf("loop%d:%s", li.ordinal, clauseLabel(inv)), inv.Text, cond, t, nil)
 	}
+	if len(li.lc.Continues) > 0 {
+		// evaluated with the body's locals as they are when the back edge is taken
+		cctx := f.contractCtx(f.cur.heap)
+		params := cctx.Vars
+		cctx.Vars = map[string]Val{}
+		cctx.Entry = params
+		heapAt := f.cur.heap
+		cctx.Lookup = func(name string) (Val, bool) {
+			if v, ok := f.lookupLocal(name, heapAt); ok {
+				return v, true
+			}
+			v, ok := params[name]
+			return v, ok
+		}
+		for _, cl := range li.lc.Continues {
+			t, err := cctx.EvalBool(cl.Expr)
+			if err != nil {
+				abort("loop %d continues %q: %v", li.ordinal, cl.Text, err)
+			}
+			x.addObligation("INV-STEP", f.dispName, fmt.Sprintf("loop%d:continues:%s", li.ordinal, clauseLabel(cl)), "the loop only continues when: "+cl.Text, cond, t, nil)
+		}
+	}
 	if x.explicitMod {
 		for _, hk := range li.havoced {
 			x.frameGoal("FRAME-STEP", f.dispName, fmt.Sprintf("loop%d:%s", li.ordinal, hk.key), hk.key, cond, x.H.Get(f.cur.heap, hk.key, x.H.sorts[hk.key]), hk.atHead)
